@@ -1121,9 +1121,10 @@ LIN_KINDS = [("add", 8), ("sub", 8), ("add_assign", 6), ("sub_assign", 6), ("neg
              ("rescale", 6), ("rescale_assign", 4), ("align", 3),
              ("add_pt_znx", 4), ("sub_pt_znx", 3), ("add_pt_znx_assign", 3), ("sub_pt_znx_assign", 3)]
 MUL_KINDS = [("mul", 8), ("mul_assign", 4), ("square", 4), ("square_assign", 2), ("mul_pt_znx", 5), ("mul_pt_znx_assign", 3),
+             ("mul_add_ct", 4), ("mul_sub_ct", 3), ("mul_add_pt_znx", 3), ("mul_sub_pt_znx", 3),
              ("add_many", 5), ("dot_ct", 8), ("dot_pt_znx", 4), ("rot", 4), ("rot_assign", 2), ("conj", 3), ("conj_assign", 2)]
 NEEDS_ATK = ("rot", "rot_assign", "conj", "conj_assign")
-NEEDS_KEY = ("mul", "mul_assign", "square", "square_assign", "dot_ct")
+NEEDS_KEY = ("mul", "mul_assign", "square", "square_assign", "dot_ct", "mul_add_ct", "mul_sub_ct")
 
 
 def data_programs(rng, count, max_steps, with_mul=False):
@@ -1174,7 +1175,7 @@ def data_programs(rng, count, max_steps, with_mul=False):
                 cd = sim.pool[d]
                 ca = sim.pool[a]
                 bits = rng.choice([0, 1, 3, rng.range(0, 2 * q)])
-                if name in ("add", "sub", "mul"):
+                if name in ("add", "sub", "mul", "mul_add_ct", "mul_sub_ct"):
                     c = [name, d, a, b]
                 elif name in ("mul_assign", "square", "conj"):
                     c = [name, d, a]
@@ -1184,11 +1185,11 @@ def data_programs(rng, count, max_steps, with_mul=False):
                     c = [name, d, a, rng.choice([1, 3])]
                 elif name == "rot_assign":
                     c = [name, d, rng.choice([1, 3])]
-                elif name in ("mul_pt_znx", "mul_pt_znx_assign", "dot_pt_znx"):
+                elif name in ("mul_pt_znx", "mul_pt_znx_assign", "dot_pt_znx", "mul_add_pt_znx", "mul_sub_pt_znx"):
                     src = cd if name == "mul_pt_znx_assign" else ca
                     pd_ = rng.range(2, min(30, max(2, src.b)))
                     pb_ = rng.range(0, q)
-                    if name == "mul_pt_znx":
+                    if name in ("mul_pt_znx", "mul_add_pt_znx", "mul_sub_pt_znx"):
                         c = [name, d, a, pd_, pb_, q]
                     elif name == "mul_pt_znx_assign":
                         c = [name, d, pd_, pb_, q]
@@ -1351,6 +1352,9 @@ def data_scenarios():
             (f"{s_}:{d}:{cap-d}/{s_}:{d}:{cap-d}/{s_}:0:0/{s_-1}:0:0", "mul,2,0,1;mul,3,0,1;square,2,0;mul_assign,2,0;square_assign,2"),
             # unequal budgets and deltas
             (f"{s_}:{d}:{cap-d}/{s_}:{d+3}:{cap-d-3-q}/{s_}:0:0", "mul,2,0,1;mul,2,1,0;mul_pt_znx,2,0,%d,%d,%d;mul_pt_znx_assign,2,%d,0,%d" % (d, q, q, d, q)),
+            # mul_add / mul_sub: the product goes to a temporary, then the normalising in-place sum (destination budget above / below the product's)
+            (f"{s_}:{d}:{cap-d}/{s_}:{d}:{cap-d}/{s_}:{d}:{cap-2*d-q}/{s_-1}:{d}:{q}",
+             "mul_add_ct,2,0,1;mul_sub_ct,2,1,0;mul_add_ct,3,0,1;mul_add_pt_znx,2,0,%d,%d,%d;mul_sub_pt_znx,3,1,%d,0,%d" % (d, q, q, d, q)),
             # add_many: one input, two, three with different budgets
             (f"{s_}:{d}:{cap-d}/{s_}:{d}:{cap-d-7}/{s_}:{d}:{cap-d-q-2}/{s_}:0:0/{s_-1}:0:0", "add_many,3,0;add_many,3,0,1;add_many,3,0,1,2;add_many,4,2,1,0,1"),
             # dot products: aligned sides; crossed budgets (uniform delta per side): the fused path rescales into buffers
